@@ -1191,19 +1191,31 @@ fn c09_ip_pre_pattern_independent_of_shares() {
 // ------------------------------------------------------------------------------------------
 // n = 3: one AND gate end to end (two garblers 1, 2; evaluator 0), rows + labels + AND arm
 
-static mut ENV_DECRYPT_Q: [Option<(bool, Vec<Mac>, Label)>; 2] = [None, None];
+static mut ENV_DECRYPT_ROWS: [(bool, [u128; 3], u128); 2] = [(false, [0; 3], 0); 2];
 static mut ENV_DECRYPT_NEXT: usize = 0;
 
 /// env_decrypt for the n = 3 composition: hands out the plaintexts of the two garblers' rows in
 /// the order the evaluator asks for them (p = 1, then p = 2).
-#[allow(static_mut_refs)]
 fn env_decrypt_n3(_k: &GarblingKey, _bytes: &[u8]) -> Result<(bool, Vec<Mac>, Label), garble::Error> {
     unsafe {
         let i = ENV_DECRYPT_NEXT;
         ENV_DECRYPT_NEXT += 1;
-        match ENV_DECRYPT_Q[i].take() {
-            Some(t) => Ok(t),
-            None => Err(garble::Error::DecryptionFailed),
+        if i == 0 {
+            let (b, m, l) = ENV_DECRYPT_ROWS[0];
+            let mut v = Vec::with_capacity(3);
+            v.push(Mac(m[0]));
+            v.push(Mac(m[1]));
+            v.push(Mac(m[2]));
+            Ok((b, v, Label(l)))
+        } else if i == 1 {
+            let (b, m, l) = ENV_DECRYPT_ROWS[1];
+            let mut v = Vec::with_capacity(3);
+            v.push(Mac(m[0]));
+            v.push(Mac(m[1]));
+            v.push(Mac(m[2]));
+            Ok((b, v, Label(l)))
+        } else {
+            Err(garble::Error::DecryptionFailed)
         }
     }
 }
@@ -1242,14 +1254,17 @@ fn and_gate_full_n3(row: usize) {
     let z = ((a ^ lam(0)) & (b ^ lam(1))) ^ lam(2);
     assert!((g1[row].0 ^ g2[row].0 ^ e[row].0) == z, "C01:and-table-n3:row_i==(a^lambda_x)(b^lambda_y)^lambda_gamma");
     unsafe {
-        let m1 = vec![g1[row].1 .0[0].0, g1[row].1 .0[1].0, g1[row].1 .0[2].0];
-        let m2 = vec![g2[row].1 .0[0].0, g2[row].1 .0[1].0, g2[row].1 .0[2].0];
-        std::ptr::write(std::ptr::addr_of_mut!(ENV_DECRYPT_Q), [Some((g1[row].0, m1, lab1[row])), Some((g2[row].0, m2, lab2[row]))]);
+        let m1 = [g1[row].1 .0[0].0 .0, g1[row].1 .0[1].0 .0, g1[row].1 .0[2].0 .0];
+        let m2 = [g2[row].1 .0[0].0 .0, g2[row].1 .0[1].0 .0, g2[row].1 .0[2].0 .0];
+        ENV_DECRYPT_ROWS = [(g1[row].0, m1, lab1[row].0), (g2[row].0, m2, lab2[row].0)];
         ENV_DECRYPT_NEXT = 0;
     }
     let lx = vec![Label(0), Label(kani::any()), Label(kani::any())];
     let ly = vec![Label(0), Label(kani::any()), Label(kani::any())];
-    let gate = || GarbledGate([vec![], vec![], vec![], vec![]]);
+    // non-empty rows: with empty `Vec<u8>`s inside Option<GarbledGate> Kani 0.68 reports a spurious
+    // dealloc-layout failure on the second take() (reproduced in isolation; content is irrelevant
+    // here because decrypt is environment)
+    let gate = || GarbledGate([vec![0u8], vec![0u8], vec![0u8], vec![0u8]]);
     let mut gg: Vec<EnvGateIter> = vec![EnvGateIter(None), EnvGateIter(Some(gate())), EnvGateIter(Some(gate()))];
     let [e0, e1, e2, e3] = e;
     let ch = NoChan;
